@@ -29,7 +29,7 @@ m = dict(
     version=1,
     setup_cmd="cd /verif/engine && . ./env.sh && go build -o /verif/bin/gosym .",
     hooks=dict(guard="verif", enable="harness files carry //go:build verif and are injected with go/packages Overlay (engine) and go test -tags verif -overlay (native replay); nothing is committed to /repo for hooks",
-               baseline_off_cmd="cd /repo && go test -mod=mod -vet=off -count=1 ./...", source_commits=[], add_only=True),
+               baseline_off_cmd="cd /repo && . /w/out/goenv.sh && go test $(gomodflag) -vet=off -count=1 -timeout 25m ./...", source_commits=[], add_only=True),
     engines=[dict(name="gosym", path="/verif/engine", serves_properties=[c['property_id'] for c in checks], kind_free_text="go/ssa symbolic executor -> SMT-LIB2 (z3 4.8.12 for bit-vectors, cvc5 1.0 for floating point), native replay via go test -overlay")],
     checks=checks,
     not_applicable=na,
